@@ -249,10 +249,19 @@ func RunCoh(c *core.Ctx) {
 					}
 				}
 				nF := len(want)
-				all := append(append(append([]protoreflect.Descriptor{}, want...), ins...), outs...)
-				if fdesc.Extensions().Len() > 0 {
-					bad2 = append(bad2, "file declares extensions (not supported by this rule)")
-				} else if len(dep.Elts) != len(all)+5 {
+				// extensions (flattened order): the extended messages, then the enum/message types of the extension fields
+				exts := flatExts(fdesc)
+				var xTargets, xDeps []protoreflect.Descriptor
+				for _, x := range exts {
+					xTargets = append(xTargets, x.ContainingMessage())
+					if x.Enum() != nil {
+						xDeps = append(xDeps, x.Enum())
+					} else if x.Message() != nil {
+						xDeps = append(xDeps, x.Message())
+					}
+				}
+				all := append(append(append(append(append([]protoreflect.Descriptor{}, want...), xTargets...), xDeps...), ins...), outs...)
+				if len(dep.Elts) != len(all)+5 {
 					bad2 = append(bad2, fmt.Sprintf("%d entries, expected %d dependencies + 5 sub-list offsets", len(dep.Elts), len(all)))
 				} else {
 					for i, w := range all {
@@ -282,7 +291,8 @@ func RunCoh(c *core.Ctx) {
 					}
 					nI := int64(len(ins))
 					n := int64(nF)
-					for j, wv := range []int64{n + nI, n, n, n, 0} {
+					nXT, nXD := int64(len(xTargets)), int64(len(xDeps))
+					for j, wv := range []int64{n + nXT + nXD + nI, n + nXT + nXD, n + nXT, n, 0} {
 						if k, ok := constIntE(info, dep.Elts[len(all)+j]); !ok || k != wv {
 							bad2 = append(bad2, fmt.Sprintf("sub-list offset %d is %d, expected %d", j, k, wv))
 						}
@@ -351,6 +361,8 @@ func RunCoh(c *core.Ctx) {
 			// TypeBuilder counts
 			checkTypeBuilder(c, g, base, len(enums), len(msgs))
 			checkInitChain(c, g, v, base, fdesc)
+			checkExtensions(c, g, base, fdesc)
+			checkRawDescGZIP(c, g, base)
 			checkMsgInfos(c, g, base, msgs, msgGo)
 		}
 		// ---- per message API
@@ -443,6 +455,259 @@ func checkEnumMaps(c *core.Ctx, g *model.GenPkg, e *model.Enum) {
 		gotV[s] = k
 	}
 	c.Check(reflect.DeepEqual(wantN, gotN) && reflect.DeepEqual(wantV, gotV), "COH.enum", con, fmt.Sprintf("%d values as in the descriptor", vals.Len()), fmt.Sprintf("maps %v / %v differ from the descriptor's values %v", gotN, gotV, wantV), c.PosStr(g.Fset, name.Pos()), src)
+}
+
+func flatExts(fd protoreflect.FileDescriptor) []protoreflect.ExtensionDescriptor {
+	var out []protoreflect.ExtensionDescriptor
+	xs := fd.Extensions()
+	for i := 0; i < xs.Len(); i++ {
+		out = append(out, xs.Get(i))
+	}
+	var walk func(ms protoreflect.MessageDescriptors)
+	walk = func(ms protoreflect.MessageDescriptors) {
+		for i := 0; i < ms.Len(); i++ {
+			m := ms.Get(i)
+			for j := 0; j < m.Extensions().Len(); j++ {
+				out = append(out, m.Extensions().Get(j))
+			}
+			walk(m.Messages())
+		}
+	}
+	walk(fd.Messages())
+	return out
+}
+
+// goCamelCase is protobuf-go's strs.GoCamelCase.
+func goCamelCase(s string) string {
+	lower := func(c byte) bool { return 'a' <= c && c <= 'z' }
+	digit := func(c byte) bool { return '0' <= c && c <= '9' }
+	var b []byte
+	for i := 0; i < len(s); i++ {
+		c := s[i]
+		switch {
+		case c == '.' && i+1 < len(s) && lower(s[i+1]):
+		case c == '.':
+			b = append(b, '_')
+		case c == '_' && (i == 0 || s[i-1] == '.'):
+			b = append(b, 'X')
+		case c == '_' && i+1 < len(s) && lower(s[i+1]):
+		case digit(c):
+			b = append(b, c)
+		default:
+			if lower(c) {
+				c -= 'a' - 'A'
+			}
+			b = append(b, c)
+			for ; i+1 < len(s) && lower(s[i+1]); i++ {
+				b = append(b, s[i+1])
+			}
+		}
+	}
+	return string(b)
+}
+
+// checkExtensions (COH.ext): the extension table lists the file's extensions in protobuf-go's flattened order,
+// each with its extendee, number, full name, wire tag, Go type and file; every E_<Name> variable points at the
+// entry of the extension it is named after; the TypeBuilder receives the table and its length.
+func checkExtensions(c *core.Ctx, g *model.GenPkg, base string, fdesc protoreflect.FileDescriptor) {
+	src := g.Source
+	exts := flatExts(fdesc)
+	tbl := pkgVarLit(g, base+"_extTypes")
+	con := g.Name + " " + base + "_extTypes"
+	if len(exts) == 0 {
+		if tbl != nil && len(tbl.Elts) > 0 {
+			c.Fail("COH.ext", con, "extension table has entries but the descriptor declares no extension", "", src)
+		}
+		return
+	}
+	if tbl == nil || len(tbl.Elts) != len(exts) {
+		c.Fail("COH.ext", con, fmt.Sprintf("extension table missing or of the wrong length (descriptor declares %d extensions)", len(exts)), "", src)
+		return
+	}
+	info := g.Info
+	var bad []string
+	for k, x := range exts {
+		cl, ok := tbl.Elts[k].(*ast.CompositeLit)
+		if !ok {
+			bad = append(bad, fmt.Sprintf("entry %d is not a literal", k))
+			continue
+		}
+		got := map[string]ast.Expr{}
+		for _, e := range cl.Elts {
+			if kv, ok := e.(*ast.KeyValueExpr); ok {
+				got[types.ExprString(kv.Key)] = kv.Value
+			}
+		}
+		str := func(key string) string {
+			if e := got[key]; e != nil {
+				if tv := info.Types[e]; tv.Value != nil && tv.Value.Kind() == constant.String {
+					return constant.StringVal(tv.Value)
+				}
+			}
+			return "<missing>"
+		}
+		typeOf := func(key string) string {
+			e := got[key]
+			if e == nil {
+				return "<missing>"
+			}
+			if call, ok := ast.Unparen(e).(*ast.CallExpr); ok {
+				if tv, ok := info.Types[call.Fun]; ok && tv.IsType() {
+					return tq(tv.Type)
+				}
+			}
+			return types.ExprString(e)
+		}
+		name := fmt.Sprintf("entry %d (%s)", k, x.FullName())
+		if n, ok := constIntE(info, got["Field"]); !ok || n != int64(x.Number()) {
+			bad = append(bad, fmt.Sprintf("%s: Field is %s, expected %d", name, types.ExprString(got["Field"]), x.Number()))
+		}
+		if str("Name") != string(x.FullName()) {
+			bad = append(bad, fmt.Sprintf("%s: Name is %q", name, str("Name")))
+		}
+		if str("Filename") != fdesc.Path() {
+			bad = append(bad, fmt.Sprintf("%s: Filename is %q, expected %q", name, str("Filename"), fdesc.Path()))
+		}
+		if et := typeOf("ExtendedType"); !strings.HasPrefix(et, "*") || !sameTail(et, string(x.ContainingMessage().Name())) {
+			bad = append(bad, fmt.Sprintf("%s: ExtendedType is %s, expected a pointer to the Go type of %s", name, et, x.ContainingMessage().FullName()))
+		}
+		// Go type of the value
+		var wantT string
+		switch {
+		case x.Message() != nil:
+			wantT = "*" + string(x.Message().Name())
+		case x.Enum() != nil:
+			wantT = "*" + string(x.Enum().Name())
+		case x.Kind() == protoreflect.BytesKind:
+			wantT = "[]byte"
+		default:
+			wantT = "*" + goKindType(x.Kind())
+		}
+		if x.IsList() {
+			wantT = "[]" + strings.TrimPrefix(wantT, "*")
+			if x.Message() != nil {
+				wantT = "[]*" + string(x.Message().Name())
+			}
+		}
+		gt := typeOf("ExtensionType")
+		okT := gt == wantT
+		if !okT && (x.Message() != nil || x.Enum() != nil) {
+			// qualified or nested Go names: same shape, same tail
+			shape := wantT[:strings.LastIndexAny(wantT, "*]")+1]
+			var tail string
+			if x.Message() != nil {
+				tail = string(x.Message().Name())
+			} else {
+				tail = string(x.Enum().Name())
+			}
+			okT = strings.HasPrefix(gt, shape) && sameTail(gt, tail)
+		}
+		if !okT {
+			bad = append(bad, fmt.Sprintf("%s: ExtensionType is %s, expected %s", name, gt, wantT))
+		}
+		// wire tag
+		tag := tagKeyword(x.Kind()) + "," + strconv.Itoa(int(x.Number()))
+		if x.IsList() {
+			tag += ",rep"
+			if x.IsPacked() {
+				tag += ",packed"
+			}
+		} else {
+			tag += ",opt"
+		}
+		tag += ",name=" + string(x.Name())
+		if x.HasJSONName() && !strings.HasPrefix(x.JSONName(), "[") && x.JSONName() != protosrcJSON(string(x.Name())) {
+			tag += ",json=" + x.JSONName()
+		}
+		if x.Enum() != nil {
+			tag += ",enum=" + string(x.Enum().FullName())
+		}
+		if str("Tag") != tag {
+			bad = append(bad, fmt.Sprintf("%s: Tag is %q, expected %q", name, str("Tag"), tag))
+		}
+	}
+	c.Check(len(bad) == 0, "COH.ext", con, fmt.Sprintf("%d extensions in flattened order with their extendee, number, name, tag, Go type and file", len(exts)), strings.Join(bad, "; "), c.PosStr(g.Fset, tbl.Pos()), src)
+	// E_ variables
+	seen := map[int]string{}
+	var bad2 []string
+	for _, f := range g.Files {
+		for _, d := range f.Decls {
+			gd, ok := d.(*ast.GenDecl)
+			if !ok || gd.Tok != token.VAR {
+				continue
+			}
+			for _, sp := range gd.Specs {
+				vs := sp.(*ast.ValueSpec)
+				for i, n := range vs.Names {
+					if i >= len(vs.Values) {
+						continue
+					}
+					ue, ok := ast.Unparen(vs.Values[i]).(*ast.UnaryExpr)
+					if !ok || ue.Op != token.AND {
+						continue
+					}
+					ix, ok := ast.Unparen(ue.X).(*ast.IndexExpr)
+					if !ok || types.ExprString(ix.X) != base+"_extTypes" {
+						continue
+					}
+					k, ok := constIntE(info, ix.Index)
+					if !ok || k < 0 || int(k) >= len(exts) {
+						bad2 = append(bad2, n.Name+" indexes outside the table")
+						continue
+					}
+					x := exts[k]
+					want := "E_" + goCamelCase(string(x.Name()))
+					if pm, ok := x.Parent().(protoreflect.MessageDescriptor); ok {
+						want = "E_" + goCamelCase(strings.TrimPrefix(string(pm.FullName()), string(fdesc.Package())+".")) + "_" + goCamelCase(string(x.Name()))
+					}
+					if n.Name != want {
+						bad2 = append(bad2, fmt.Sprintf("%s points at entry %d, which is extension %s (its variable is %s)", n.Name, k, x.FullName(), want))
+					}
+					if prev, dup := seen[int(k)]; dup {
+						bad2 = append(bad2, fmt.Sprintf("%s and %s share entry %d", prev, n.Name, k))
+					}
+					seen[int(k)] = n.Name
+				}
+			}
+		}
+	}
+	if len(seen) != len(exts) {
+		bad2 = append(bad2, fmt.Sprintf("%d extension variables for %d extensions", len(seen), len(exts)))
+	}
+	c.Check(len(bad2) == 0, "COH.ext", g.Name+" "+base+" extension variables", fmt.Sprintf("%d E_ variables, each bound to the entry of its own extension", len(exts)), strings.Join(bad2, "; "), c.PosStr(g.Fset, tbl.Pos()), src)
+	// TypeBuilder
+	if initFn := g.Funcs[base+"_init"]; initFn != nil {
+		got := map[string]string{}
+		ast.Inspect(initFn.Body, func(n ast.Node) bool {
+			if kv, ok := n.(*ast.KeyValueExpr); ok {
+				if id, ok := kv.Key.(*ast.Ident); ok && (id.Name == "NumExtensions" || id.Name == "ExtensionInfos") {
+					got[id.Name] = types.ExprString(kv.Value)
+				}
+			}
+			return true
+		})
+		c.Check(got["NumExtensions"] == strconv.Itoa(len(exts)) && got["ExtensionInfos"] == base+"_extTypes", "COH.ext", g.Name+" "+base+"_init extensions",
+			fmt.Sprintf("NumExtensions=%d, ExtensionInfos=%s_extTypes", len(exts), base), fmt.Sprintf("TypeBuilder has %v for %d extensions", got, len(exts)), pos(c, g, initFn.Pos()), src)
+	}
+}
+
+// protosrcJSON is protoc's default json name.
+func protosrcJSON(n string) string {
+	var sb strings.Builder
+	up := false
+	for i := 0; i < len(n); i++ {
+		ch := n[i]
+		if ch == '_' {
+			up = true
+			continue
+		}
+		if up && ch >= 'a' && ch <= 'z' {
+			ch -= 'a' - 'A'
+		}
+		up = false
+		sb.WriteByte(ch)
+	}
+	return sb.String()
 }
 
 func checkTypeBuilder(c *core.Ctx, g *model.GenPkg, base string, nEnums, nMsgs int) {
@@ -684,7 +949,7 @@ func checkMessageAPI(c *core.Ctx, g *model.GenPkg, m *model.Msg, fdVars map[type
 		c.Check(cerr == "" && in(got, want[k]), "COH.type", con, got, fmt.Sprintf("method does: %s ; expected: %s", got, want[k][0]), pos(c, g, fd.Pos()), src)
 	}
 	// the message type singleton variable has the messageType type
-	if o, ok := g.Types.Scope().Lookup(mtVar).(*types.Var); !ok || tq(o.Type()) != g.Types.Name()+"."+mt {
+	if o, ok := g.Types.Scope().Lookup(mtVar).(*types.Var); !ok || tq(o.Type()) != pkgLabel(g.Types)+"."+mt {
 		c.Fail("COH.type", g.Name+"."+mtVar, "message type singleton not found or of the wrong type", "", src)
 	}
 	// struct tags
@@ -885,4 +1150,76 @@ func checkInitChain(c *core.Ctx, g *model.GenPkg, rawVar, base string, fdesc pro
 		c.Check(ok && (builderAt < 0 || at < builderAt), "COH.initchain", con, "calls "+depBase+"_init() before building its own types",
 			"the imported file "+dep+" is generated into the same Go package but "+base+"_init does not call "+depBase+"_init() before the TypeBuilder: when this file's init runs first its message and enum dependencies are unresolved placeholders", pos(c, g, initFn.Pos()), src)
 	}
+}
+
+// pkgVarInit returns the initialiser expression of a package variable.
+func pkgVarInit(g *model.GenPkg, name string) ast.Expr {
+	for _, f := range g.Files {
+		for _, d := range f.Decls {
+			gd, ok := d.(*ast.GenDecl)
+			if !ok || gd.Tok != token.VAR {
+				continue
+			}
+			for _, sp := range gd.Specs {
+				vs := sp.(*ast.ValueSpec)
+				for i, n := range vs.Names {
+					if n.Name == name && i < len(vs.Values) {
+						return vs.Values[i]
+					}
+				}
+			}
+		}
+	}
+	return nil
+}
+
+// checkRawDescGZIP (COH.legacy): the bytes the legacy Descriptor()/EnumDescriptor() methods hand out are the
+// gzip-compressed raw descriptor: <base>_rawDescData starts as <base>_rawDesc (the init function later sets
+// <base>_rawDesc to nil) and <base>_rawDescGZIP compresses and returns <base>_rawDescData, once.
+func checkRawDescGZIP(c *core.Ctx, g *model.GenPkg, base string) {
+	src := g.Source
+	con := g.Name + " " + base + "_rawDescGZIP"
+	fd := g.Funcs[base+"_rawDescGZIP"]
+	if fd == nil {
+		c.Fail("COH.legacy", con, "function not found", "", src)
+		return
+	}
+	init := pkgVarInit(g, base+"_rawDescData")
+	initOK := init != nil && types.ExprString(init) == base+"_rawDesc"
+	want := fmt.Sprintf("%[1]s_rawDescOnce.Do(func() { %[1]s_rawDescData = protoimpl.X.CompressGZIP(%[1]s_rawDescData) }); return %[1]s_rawDescData", base)
+	got := "a different statement structure"
+	shape := false
+	if len(fd.Body.List) == 2 {
+		if es, ok := fd.Body.List[0].(*ast.ExprStmt); ok {
+			if call, ok := es.X.(*ast.CallExpr); ok && len(call.Args) == 1 && types.ExprString(call.Fun) == base+"_rawDescOnce.Do" {
+				if fl, ok := call.Args[0].(*ast.FuncLit); ok && len(fl.Body.List) == 1 {
+					if rs, ok := fd.Body.List[1].(*ast.ReturnStmt); ok && len(rs.Results) == 1 {
+						if as, ok := fl.Body.List[0].(*ast.AssignStmt); ok && as.Tok == token.ASSIGN && len(as.Lhs) == 1 && len(as.Rhs) == 1 {
+							got = fmt.Sprintf("%s(func() { %s = %s }); return %s", types.ExprString(call.Fun), types.ExprString(as.Lhs[0]), types.ExprString(as.Rhs[0]), types.ExprString(rs.Results[0]))
+							shape = true
+						}
+					}
+				}
+			}
+		}
+	}
+	ok := initOK && shape && got == want
+	if ok {
+		// the compressor is protobuf-go's
+		ok = false
+		ast.Inspect(fd.Body, func(n ast.Node) bool {
+			if call, ok2 := n.(*ast.CallExpr); ok2 {
+				if q := core.QualName(core.CalleeObj(g.Info, call)); strings.HasSuffix(q, "CompressGZIP") && strings.Contains(q, "google.golang.org/protobuf/") {
+					ok = true
+				}
+			}
+			return true
+		})
+	}
+	detail := "body is: " + got
+	if !initOK {
+		detail = base + "_rawDescData is not initialised with " + base + "_rawDesc"
+	}
+	c.Check(ok, "COH.legacy", con, "compresses and returns "+base+"_rawDescData, which starts as the raw descriptor",
+		"the legacy descriptor bytes are not the compressed raw descriptor ("+base+"_rawDesc is nil after init; only "+base+"_rawDescData keeps the bytes): "+detail+"; expected: "+want, pos(c, g, fd.Pos()), src)
 }
